@@ -423,7 +423,8 @@ func VerifC06_goaway() {
 func VerifC06_windowupdate() {
 	w := c06new()
 	sid, incr := vfU32("sid"), vfU32("incr")
-	accept := vfAnd(incr >= 1, incr <= 1<<31-1)
+	// since /repo commit b82cbc7 the stream id must not carry the reserved bit (0 = connection level is valid)
+	accept := vfAnd(vfAnd(incr >= 1, incr <= 1<<31-1), sid&(1<<31) == 0)
 	if err := w.fr.WriteWindowUpdate(sid, incr); err != nil {
 		c06rejected(w, accept)
 		vfReach("rejected")
